@@ -387,6 +387,11 @@ func VerifH_OrderTopLevel() {
 		verifLetters = 3
 		menu = []int{tTypeAllOf, tTypeNested, tTypeObj, tEnum, tGetPath, tRespRef}
 	}
+	if verifrt.Bound("MENU") == 3 {
+		// paths with parameters: a URL block that holds a JSON-RPC method (no HTTP method inside) and HTTP
+		// methods with the same first segment under another parameter name ("similar" paths)
+		menu = []int{tURLParam, tProtocol, tMethod, tGetNm, tGetPath}
+	}
 	_, lines := verifDocLines(menu, k, true)
 	if !refResolveLines(lines) {
 		verifrt.Stop()
